@@ -255,7 +255,7 @@ def check_one(job):
                 out["sigs"].append((f"type-error:{ctxname}:{normalise_syntax(f.detail)}", f.detail, {}))
             else:
                 out["sigs"].append((f"type-error:{normalise_syntax(f.detail)}:{opset(e)}", f.detail, {}))
-        elif f.kind in ("arity", "type-class", "unresolved", "missing-argument", "duplicate-decl", "uninitialised-read"):
+        elif f.kind in ("arity", "type-class", "unresolved", "missing-argument", "duplicate-decl", "uninitialised-read", "tmp-read-before-write"):
             continue  # C14 / C10 / C03 territory
         elif f.kind == "unknown":
             out["sigs"].append(("unknown", f.detail, {}))
